@@ -37,6 +37,7 @@ RULE = (
 )
 REQUIRED_COVER = [
     "partial_insertion",
+    "inserted_into_more_compartments_after_init_states",
     "two_channels_sharing_param",
     "renamed_channel",
     "voltage_at_singularity",
@@ -452,6 +453,24 @@ def module_layer(specs, subsets, out, only=None):
             wit = {"kind": "module", "specs": specs, "subsets": subsets, "valuation": which, "triple": ttag}
             module_case(br, chans, specs, subsets, vals, v, out, wit, f"module:{names}:{subsets}:val{which}:{ttag}", acc, views)
             out["digests"].append(digest(["module", specs, subsets, which, ttag]))
+    # the channels are then inserted into the REMAINING compartments of the same (already initialised) module and init_states
+    # runs again: the rows added after the first call must be initialised too
+    if only is None and any(len(s) < 3 for s in subsets):
+        try:
+            for spec, sub in zip(specs, subsets):
+                rest = [c for c in range(3) if c not in sub]
+                if rest:
+                    br.comp(rest).insert(make_channel(spec))
+            full = [list(range(3)) for _ in specs]
+            vals = valuation(specs, 3, 0)
+            v = dict(voltage_triples(specs, full, vals))["generic"]
+            wit = {"kind": "module", "specs": specs, "subsets": subsets, "valuation": 0, "triple": "generic", "reinserted": True}
+            module_case(br, chans, specs, full, vals, v, out, wit, f"module:{names}:{subsets}->all:val0:generic", acc, {})
+            out["cover"].append("inserted_into_more_compartments_after_init_states")
+        except Exception as e:
+            out["violations"].append(_viol({"rule": "raises", "call": "insert_again", "exc": type(e).__name__},
+                                           {"kind": "module", "specs": specs, "subsets": subsets, "reinserted": True},
+                                           f"second insert raised {type(e).__name__}: {e}"[:300]))
     if acc:
         judge_rows(chans, specs, acc, out)
 
@@ -529,6 +548,9 @@ def replay(w):
     if w["kind"] == "kernel":
         kernel_layer(w["spec"], w["p"], np.asarray([w["v"]]) if "v" in w else kl.voltages64(w["spec"][0], w["p"], LO, HI, "quick"),
                      out, {"kind": "kernel", "spec": w["spec"], "p": w["p"]})
+    elif w["kind"] == "module" and w.get("reinserted"):
+        module_layer(w["specs"], w["subsets"], out)  # the whole sequence (the second insert needs the first init_states)
+        return [v for v in out["violations"] if v["witness"].get("reinserted")]
     elif w["kind"] == "module":
         module_layer(w["specs"], w["subsets"], out, only=(w["valuation"], w["triple"]))
     elif w["kind"] == "wide":
